@@ -151,10 +151,14 @@ void day_chunk(std::int32_t lo, std::int32_t hi, unsigned stride)
     if (vf::want_sample("conv-chunk")) { vf::sample("conv-chunk", "days [%d, %d]: every %u-th day plus every first/last day of a month", lo, hi, stride); }
 }
 
-template <typename N, typename V> Val ymwd_addeq_m(V v, long long k) { auto& r = (v += typename N::months{(typename N::months::rep)k}); return v_ymwd(v).add("returns-self", &r == &v); }
-template <typename N, typename V> Val ymwd_subeq_m(V v, long long k) { auto& r = (v -= typename N::months{(typename N::months::rep)k}); return v_ymwd(v).add("returns-self", &r == &v); }
-template <typename N, typename V> Val ymwd_addeq_y(V v, long long k) { auto& r = (v += typename N::years{(typename N::years::rep)k}); return v_ymwd(v).add("returns-self", &r == &v); }
-template <typename N, typename V> Val ymwd_subeq_y(V v, long long k) { auto& r = (v -= typename N::years{(typename N::years::rep)k}); return v_ymwd(v).add("returns-self", &r == &v); }
+template <typename N, typename V> Val ymwd_addeq_m(V v, long long k) { auto&& r = (v += typename N::months{(typename N::months::rep)k}); return v_ymwd(v).add("returns-self", &r == &v); }
+template <typename N, typename V> Val ymwd_subeq_m(V v, long long k) { auto&& r = (v -= typename N::months{(typename N::months::rep)k}); return v_ymwd(v).add("returns-self", &r == &v); }
+template <typename N, typename V> Val ymwd_addeq_y(V v, long long k) { auto&& r = (v += typename N::years{(typename N::years::rep)k}); return v_ymwd(v).add("returns-self", &r == &v); }
+template <typename N, typename V> Val ymwd_subeq_y(V v, long long k) { auto&& r = (v -= typename N::years{(typename N::years::rep)k}); return v_ymwd(v).add("returns-self", &r == &v); }
+template <typename N, typename V> Val ymwd_ch_addsub_m(V v, long long k) { (v += typename N::months{(typename N::months::rep)k}) -= typename N::months{(typename N::months::rep)k}; return v_ymwd(v); }
+template <typename N, typename V> Val ymwd_ch_subadd_m(V v, long long k) { (v -= typename N::months{(typename N::months::rep)k}) += typename N::months{(typename N::months::rep)k}; return v_ymwd(v); }
+template <typename N, typename V> Val ymwd_ch_addsub_y(V v, long long k) { (v += typename N::years{(typename N::years::rep)k}) -= typename N::years{(typename N::years::rep)k}; return v_ymwd(v); }
+template <typename N, typename V> Val ymwd_ch_subadd_y(V v, long long k) { (v -= typename N::years{(typename N::years::rep)k}) += typename N::years{(typename N::years::rep)k}; return v_ymwd(v); }
 struct EN { using months = ec::months; using years = ec::years; };
 struct SN { using months = sc::months; using years = sc::years; };
 
@@ -193,9 +197,11 @@ void year_case(int y)
                 std::uint64_t h = vf::mix(vf::mix((std::uint64_t)(y + 40000), m * 64 + wi.wd * 8 + wi.i), (std::uint64_t)k);
                 if (year_in_range((long long)y + fdiv((long long)m - 1 + k, 12))) {
                     CMPV("year_month_weekday", "ymwd+=months", carry_sit(m, k), h, args, (ymwd_addeq_m<SN>(s_ymwd(y, m, wi.wd, wi.i), k)), (ymwd_addeq_m<EN>(e_ymwd(y, m, wi.wd, wi.i), k)));
+                    CMPV("year_month_weekday", "(ymwd+=months)-=months", carry_sit(m, k), h, args, (ymwd_ch_addsub_m<SN>(s_ymwd(y, m, wi.wd, wi.i), k)), (ymwd_ch_addsub_m<EN>(e_ymwd(y, m, wi.wd, wi.i), k)));
                 }
                 if (year_in_range((long long)y + fdiv((long long)m - 1 - k, 12))) {
                     CMPV("year_month_weekday", "ymwd-=months", carry_sit(m, -k), h, args, (ymwd_subeq_m<SN>(s_ymwd(y, m, wi.wd, wi.i), k)), (ymwd_subeq_m<EN>(e_ymwd(y, m, wi.wd, wi.i), k)));
+                    CMPV("year_month_weekday", "(ymwd-=months)+=months", carry_sit(m, -k), h, args, (ymwd_ch_subadd_m<SN>(s_ymwd(y, m, wi.wd, wi.i), k)), (ymwd_ch_subadd_m<EN>(e_ymwd(y, m, wi.wd, wi.i), k)));
                 }
             }
             for (long long k : year_deltas(y)) {
@@ -204,9 +210,11 @@ void year_case(int y)
                 char const* sit = k == 0 ? "delta=0" : (k > 0 ? "delta>0" : "delta<0");
                 if (year_in_range((long long)y + k)) {
                     CMPV("year_month_weekday", "ymwd+=years", sit, h, args, (ymwd_addeq_y<SN>(s_ymwd(y, m, wi.wd, wi.i), k)), (ymwd_addeq_y<EN>(e_ymwd(y, m, wi.wd, wi.i), k)));
+                    CMPV("year_month_weekday", "(ymwd+=years)-=years", sit, h, args, (ymwd_ch_addsub_y<SN>(s_ymwd(y, m, wi.wd, wi.i), k)), (ymwd_ch_addsub_y<EN>(e_ymwd(y, m, wi.wd, wi.i), k)));
                 }
                 if (year_in_range((long long)y - k)) {
                     CMPV("year_month_weekday", "ymwd-=years", sit, h, args, (ymwd_subeq_y<SN>(s_ymwd(y, m, wi.wd, wi.i), k)), (ymwd_subeq_y<EN>(e_ymwd(y, m, wi.wd, wi.i), k)));
+                    CMPV("year_month_weekday", "(ymwd-=years)+=years", sit, h, args, (ymwd_ch_subadd_y<SN>(s_ymwd(y, m, wi.wd, wi.i), k)), (ymwd_ch_subadd_y<EN>(e_ymwd(y, m, wi.wd, wi.i), k)));
                 }
             }
         }
@@ -231,10 +239,14 @@ template <typename N, typename V> Val sub_m(V v, long long k) { return v_ymwdl(v
 template <typename N, typename V> Val add_y(V v, long long k) { return v_ymwdl(v + typename N::years{(typename N::years::rep)k}); }
 template <typename N, typename V> Val radd_y(V v, long long k) { return v_ymwdl(typename N::years{(typename N::years::rep)k} + v); }
 template <typename N, typename V> Val sub_y(V v, long long k) { return v_ymwdl(v - typename N::years{(typename N::years::rep)k}); }
-template <typename N, typename V> Val addeq_m(V v, long long k) { auto& r = (v += typename N::months{(typename N::months::rep)k}); return v_ymwdl(v).add("returns-self", &r == &v); }
-template <typename N, typename V> Val subeq_m(V v, long long k) { auto& r = (v -= typename N::months{(typename N::months::rep)k}); return v_ymwdl(v).add("returns-self", &r == &v); }
-template <typename N, typename V> Val addeq_y(V v, long long k) { auto& r = (v += typename N::years{(typename N::years::rep)k}); return v_ymwdl(v).add("returns-self", &r == &v); }
-template <typename N, typename V> Val subeq_y(V v, long long k) { auto& r = (v -= typename N::years{(typename N::years::rep)k}); return v_ymwdl(v).add("returns-self", &r == &v); }
+template <typename N, typename V> Val ch_addsub_m(V v, long long k) { (v += typename N::months{(typename N::months::rep)k}) -= typename N::months{(typename N::months::rep)k}; return v_ymwdl(v); }
+template <typename N, typename V> Val ch_subadd_m(V v, long long k) { (v -= typename N::months{(typename N::months::rep)k}) += typename N::months{(typename N::months::rep)k}; return v_ymwdl(v); }
+template <typename N, typename V> Val ch_addsub_y(V v, long long k) { (v += typename N::years{(typename N::years::rep)k}) -= typename N::years{(typename N::years::rep)k}; return v_ymwdl(v); }
+template <typename N, typename V> Val ch_subadd_y(V v, long long k) { (v -= typename N::years{(typename N::years::rep)k}) += typename N::years{(typename N::years::rep)k}; return v_ymwdl(v); }
+template <typename N, typename V> Val addeq_m(V v, long long k) { auto&& r = (v += typename N::months{(typename N::months::rep)k}); return v_ymwdl(v).add("returns-self", &r == &v); }
+template <typename N, typename V> Val subeq_m(V v, long long k) { auto&& r = (v -= typename N::months{(typename N::months::rep)k}); return v_ymwdl(v).add("returns-self", &r == &v); }
+template <typename N, typename V> Val addeq_y(V v, long long k) { auto&& r = (v += typename N::years{(typename N::years::rep)k}); return v_ymwdl(v).add("returns-self", &r == &v); }
+template <typename N, typename V> Val subeq_y(V v, long long k) { auto&& r = (v -= typename N::years{(typename N::years::rep)k}); return v_ymwdl(v).add("returns-self", &r == &v); }
 
 void day_chunk(std::int32_t lo, std::int32_t hi, unsigned)
 {
@@ -285,10 +297,12 @@ void year_case(int y)
                 CMPV("year_month_weekday_last", "ymwdl+months", carry_sit(m, k), h, args, add_m<SN>(s_mk(y, m, wd), k), add_m<EN>(e_mk(y, m, wd), k));
                 CMPV("year_month_weekday_last", "months+ymwdl", carry_sit(m, k), h, args, radd_m<SN>(s_mk(y, m, wd), k), radd_m<EN>(e_mk(y, m, wd), k));
                 CMPV("year_month_weekday_last", "ymwdl+=months", carry_sit(m, k), h, args, addeq_m<SN>(s_mk(y, m, wd), k), addeq_m<EN>(e_mk(y, m, wd), k));
+                CMPV("year_month_weekday_last", "(ymwdl+=months)-=months", carry_sit(m, k), h, args, ch_addsub_m<SN>(s_mk(y, m, wd), k), ch_addsub_m<EN>(e_mk(y, m, wd), k));
             }
             if (year_in_range((long long)y + fdiv((long long)m - 1 - k, 12))) {
                 CMPV("year_month_weekday_last", "ymwdl-months", carry_sit(m, -k), h, args, sub_m<SN>(s_mk(y, m, wd), k), sub_m<EN>(e_mk(y, m, wd), k));
                 CMPV("year_month_weekday_last", "ymwdl-=months", carry_sit(m, -k), h, args, subeq_m<SN>(s_mk(y, m, wd), k), subeq_m<EN>(e_mk(y, m, wd), k));
+                CMPV("year_month_weekday_last", "(ymwdl-=months)+=months", carry_sit(m, -k), h, args, ch_subadd_m<SN>(s_mk(y, m, wd), k), ch_subadd_m<EN>(e_mk(y, m, wd), k));
             }
         }
         for (long long k : year_deltas(y)) {
@@ -299,10 +313,12 @@ void year_case(int y)
                 CMPV("year_month_weekday_last", "ymwdl+years", sit, h, args, add_y<SN>(s_mk(y, m, wd), k), add_y<EN>(e_mk(y, m, wd), k));
                 CMPV("year_month_weekday_last", "years+ymwdl", sit, h, args, radd_y<SN>(s_mk(y, m, wd), k), radd_y<EN>(e_mk(y, m, wd), k));
                 CMPV("year_month_weekday_last", "ymwdl+=years", sit, h, args, addeq_y<SN>(s_mk(y, m, wd), k), addeq_y<EN>(e_mk(y, m, wd), k));
+                CMPV("year_month_weekday_last", "(ymwdl+=years)-=years", sit, h, args, ch_addsub_y<SN>(s_mk(y, m, wd), k), ch_addsub_y<EN>(e_mk(y, m, wd), k));
             }
             if (year_in_range((long long)y - k)) {
                 CMPV("year_month_weekday_last", "ymwdl-years", sit, h, args, sub_y<SN>(s_mk(y, m, wd), k), sub_y<EN>(e_mk(y, m, wd), k));
                 CMPV("year_month_weekday_last", "ymwdl-=years", sit, h, args, subeq_y<SN>(s_mk(y, m, wd), k), subeq_y<EN>(e_mk(y, m, wd), k));
+                CMPV("year_month_weekday_last", "(ymwdl-=years)+=years", sit, h, args, ch_subadd_y<SN>(s_mk(y, m, wd), k), ch_subadd_y<EN>(e_mk(y, m, wd), k));
             }
         }
         std::snprintf(args, sizeof args, "y=%d m=%u", y, m);
